@@ -60,7 +60,7 @@ def restyle(text, rng):
 def mutate(text, v, rng):
     """one single-fault mutation; returns (kind, new text, expected)"""
     lines = text.split('\n')
-    kind = rng.choice(['remove-attr', 'rename-elem', 'other-version-elem', 'dup-single', 'unbalanced', 'header'] + (['header'] * 1))
+    kind = rng.choice(['remove-attr', 'rename-elem', 'other-version-elem', 'dup-single', 'unbalanced', 'truncated', 'header'] + (['header'] * 1))
     if kind == 'header':
         f = rng.choice(HEADER_FAULTS)
         h1, h2 = lines[0], lines[1]
@@ -137,6 +137,12 @@ def mutate(text, v, rng):
         if m:
             return 'dup-single:Lemma', body[:m.end()] + m.group(0) + body[m.end():], 'invalid'
         return 'none', body, 'valid'
+    if kind == 'truncated':
+        # the file ends early, right after a complete tag: nothing mismatches, the document just never closes
+        cut = rng.choice(['</LexicalResource>', '</Lexicon', '</LexicalResource>'])
+        i = body.rfind(cut)
+        if i > 0:
+            return 'truncated:before-' + cut.strip('</>'), body[:i], 'invalid'
     if kind == 'unbalanced':
         ms = list(re.finditer(r'</(LexicalEntry|Synset|Sense|Lexicon|LexicalResource)>', body))
         if ms:
@@ -180,6 +186,11 @@ def _impl(sc):
             # every file produced by dump() is accepted (header, whole document, scan)
             try:
                 g = d / 'dumped.xml'
+                g.write_text('not a wordnet yet')      # the destination is looked at before it is written
+                try:
+                    lmf.is_lmf(g)
+                except Exception:
+                    pass
                 lmf.dump(r, g)
                 stage = 'is_lmf'
                 out['dump'] = 'ok' if lmf.is_lmf(g) else 'is_lmf false'
